@@ -223,11 +223,13 @@ def lpFrom (es : List DEdge) (n : Nat) (v : String) : Nat :=
   lookupD 1 (lpAll ids es) v
 
 /-- C11: per component, bands = nodes on a longest path; a node is lp(v) − 1 bands above the bottom band -/
-def c11 (o : Out) : Bool :=
+def c11 (o : Out) (bandsFromY : Bool := false) : Bool :=
   let es := drawnEdges o
   acyclicD es &&
   (comps o).all fun c =>
     let ns := (compNodes o c).filter (!·.virt)
+    -- the bands as drawn are the traced layers: same layer ⇔ same Y, lower layer ⇔ smaller Y (asked when LayerSpacing > 0)
+    (!bandsFromY || allPairs (fun a b => (a.layer == b.layer) == (a.y == b.y) && (a.layer < b.layer) == (a.y < b.y)) ns) &&
     let ids := ns.map (·.id)
     let ces := es.filter fun e => ids.contains e.1
     let tab := lpAll ids ces
